@@ -166,6 +166,157 @@ func closedParams(h *ssa.Function) map[int]bool {
 	return out
 }
 
+// typeMayHoldHandle: a value of type t can (transitively) contain an open handle – it has an interface (other than error), a
+// function or a channel somewhere inside. Pure data records cannot.
+func typeMayHoldHandle(t types.Type, depth int, seen map[types.Type]bool) bool {
+	if depth > 6 || seen[t] {
+		return false
+	}
+	seen[t] = true
+	if isErrorType(t) {
+		return false
+	}
+	switch u := t.Underlying().(type) {
+	case *types.Interface, *types.Signature, *types.Chan:
+		return true
+	case *types.Pointer:
+		return typeMayHoldHandle(u.Elem(), depth+1, seen)
+	case *types.Slice:
+		return typeMayHoldHandle(u.Elem(), depth+1, seen)
+	case *types.Array:
+		return typeMayHoldHandle(u.Elem(), depth+1, seen)
+	case *types.Map:
+		return typeMayHoldHandle(u.Elem(), depth+1, seen) || typeMayHoldHandle(u.Key(), depth+1, seen)
+	case *types.Struct:
+		for i := 0; i < u.NumFields(); i++ {
+			if typeMayHoldHandle(u.Field(i).Type(), depth+1, seen) {
+				return true
+			}
+		}
+	case *types.Basic:
+		return u.Kind() == types.UnsafePointer
+	}
+	return false
+}
+
+type closedField struct {
+	kind  string // "param" | "free"
+	idx   int
+	field string
+	typ   types.Type
+}
+
+// calleeAndBindings: the module function a call runs (static callee, or the closure made in this function) and, for a closure,
+// the values bound to its free variables.
+func calleeAndBindings(p *core.Prog, cc *ssa.CallCommon) (*ssa.Function, []ssa.Value) {
+	if cc.IsInvoke() {
+		return nil, nil
+	}
+	if h := cc.StaticCallee(); h != nil {
+		if !core.InModule(h) || len(h.Blocks) == 0 {
+			return nil, nil
+		}
+		if mc, ok := cc.Value.(*ssa.MakeClosure); ok {
+			return h, mc.Bindings
+		}
+		return h, nil
+	}
+	if mc, ok := p.Def(cc.Value).(*ssa.MakeClosure); ok {
+		if h, ok := mc.Fn.(*ssa.Function); ok && len(h.Blocks) > 0 {
+			return h, mc.Bindings
+		}
+	}
+	return nil, nil
+}
+
+var closedOperandFieldsMemo = map[*ssa.Function][]closedField{}
+
+// closedOperandFields: the fields of h's operands (a struct parameter / receiver, a captured struct variable) on which h calls
+// Close() whatever happens (the call sits on every path to every return, or is deferred at entry).
+func closedOperandFields(h *ssa.Function) []closedField {
+	if v, ok := closedOperandFieldsMemo[h]; ok {
+		return v
+	}
+	var out []closedField
+	var rets []*ssa.BasicBlock
+	for _, b := range h.Blocks {
+		if _, ok := b.Instrs[len(b.Instrs)-1].(*ssa.Return); ok && b.Comment != "recover" {
+			rets = append(rets, b)
+		}
+	}
+	spillOf := func(v ssa.Value) (int, bool) {
+		for i, pa := range h.Params {
+			if v == ssa.Value(pa) {
+				return i, true
+			}
+			if al, ok := v.(*ssa.Alloc); ok && al.Referrers() != nil {
+				for _, r := range *al.Referrers() {
+					if st, ok := r.(*ssa.Store); ok && st.Addr == ssa.Value(al) && st.Val == ssa.Value(pa) {
+						return i, true
+					}
+				}
+			}
+		}
+		return 0, false
+	}
+	for _, b := range h.Blocks {
+		for _, in := range b.Instrs {
+			ci, ok := in.(ssa.CallInstruction)
+			if !ok {
+				continue
+			}
+			cc := ci.Common()
+			var recv ssa.Value
+			if cc.IsInvoke() && cc.Method.Name() == "Close" {
+				recv = cc.Value
+			} else if sc := cc.StaticCallee(); sc != nil && sc.Name() == "Close" && sc.Signature.Recv() != nil && len(cc.Args) > 0 {
+				recv = cc.Args[0]
+			}
+			if recv == nil {
+				continue
+			}
+			always := true
+			for _, r := range rets {
+				if !b.Dominates(r) {
+					always = false
+				}
+			}
+			if _, isDefer := in.(*ssa.Defer); isDefer && b == h.Blocks[0] {
+				always = true
+			}
+			if !always {
+				continue
+			}
+			recv = stripIface(recv)
+			switch x := recv.(type) {
+			case *ssa.Field:
+				if i, ok := spillOf(x.X); ok {
+					st := x.X.Type().Underlying().(*types.Struct)
+					out = append(out, closedField{"param", i, st.Field(x.Field).Name(), st.Field(x.Field).Type()})
+				}
+			case *ssa.UnOp:
+				fa, ok := x.X.(*ssa.FieldAddr)
+				if !ok {
+					continue
+				}
+				st := fa.X.Type().Underlying().(*types.Pointer).Elem().Underlying().(*types.Struct)
+				name, typ := st.Field(fa.Field).Name(), st.Field(fa.Field).Type()
+				if i, ok := spillOf(fa.X); ok {
+					out = append(out, closedField{"param", i, name, typ})
+					continue
+				}
+				for i, fv := range h.FreeVars {
+					if fa.X == ssa.Value(fv) {
+						out = append(out, closedField{"free", i, name, typ})
+					}
+				}
+			}
+		}
+	}
+	closedOperandFieldsMemo[h] = out
+	return out
+}
+
 // closeTargets: the values a call instruction closes – the receiver of a Close(), or what is handed to a module helper in a
 // parameter the helper always closes (for a variadic helper: every element of the argument list).
 func closeTargets(ci ssa.CallInstruction) []ssa.Value {
@@ -592,6 +743,20 @@ func typestate(c *Ctx, f *ssa.Function) int {
 				}
 			}
 		}
+		closeTermKey := func(k string, deferredClose bool, at ssa.Instruction) {
+			rs := res[k]
+			if rs == nil {
+				return
+			}
+			if deferredClose {
+				deferred = append(deferred, func() { res[k].closes++; res[k].deferred++ })
+			} else {
+				rs.closes++
+				if rs.closedAt == nil {
+					rs.closedAt = at
+				}
+			}
+		}
 		open := func(key, desc string, at ssa.Instruction) {
 			if res[key] == nil {
 				res[key] = &resState{key: key, desc: desc, opened: at}
@@ -627,6 +792,35 @@ func typestate(c *Ctx, f *ssa.Function) int {
 						for _, target := range targets {
 							closeKey(target, isDefer, in)
 						}
+					}
+					// a helper (function, method of the handle's struct, or a local closure) that closes FIELDS of what it is given:
+					// closeSourceSink(handle), handle.Close(), closeHandle()
+					if h, bindings := calleeAndBindings(c.P, cc); h != nil {
+						closedAny := false
+						for _, cf := range closedOperandFields(h) {
+							var t *core.Term
+							switch cf.kind {
+							case "param":
+								if cf.idx < len(cc.Args) {
+									t = core.ProjField(env.Term(cc.Args[cf.idx]), cf.field)
+								}
+							case "free":
+								if cf.idx < len(bindings) {
+									if al, ok := bindings[cf.idx].(*ssa.Alloc); ok {
+										t = env.LoadField(al, cf.field, in, cf.typ)
+									}
+								}
+							}
+							if t != nil {
+								closeTermKey(t.Key(), isDefer, in)
+								closedAny = true
+							}
+						}
+						if closedAny {
+							continue
+						}
+					}
+					if isClose {
 						continue
 					}
 				}
@@ -701,8 +895,10 @@ func typestate(c *Ctx, f *ssa.Function) int {
 			}
 			escapes := false
 			if success {
-				for _, r := range rp.Results {
-					if termMentions(r, k) {
+				for ri, r := range rp.Results {
+					// the result can carry the handle only if its type can hold one (an interface, a function, a channel somewhere
+					// inside): a plain data record computed FROM the handle (the run's hops) does not hand the handle out
+					if termMentions(r, k) && typeMayHoldHandle(f.Signature.Results().At(ri).Type(), 0, map[types.Type]bool{}) {
 						escapes = true
 					}
 				}
@@ -713,6 +909,9 @@ func typestate(c *Ctx, f *ssa.Function) int {
 							if termMentions(env.Term(st.Val), k) {
 								root, _ := addrRootFields(st.Addr)
 								for _, rv := range rp.Ret.Results {
+									if !typeMayHoldHandle(rv.Type(), 0, map[types.Type]bool{}) {
+										continue
+									}
 									if stripIface(rv) == root {
 										escapes = true
 									}
